@@ -1,13 +1,44 @@
-//! HttpPages engine (stage 1: exploration).
+//! HttpPages engine: the real HTTP endpoints of a really running pipeline (`Manager::load/prepare/spawn` of
+//! `bmp-tcp-in -> rib -> null-out`, tracing on) with routers really CONNECTED over loopback TCP
+//! (127.0.0.<n> -> the unit's listener) that send real BMP messages (Initiation with arbitrary TLV bytes,
+//! Peer Up, Route Monitoring), vs the Lean model `Model/HttpPages.lean`.
+//!
+//! Requests go through the real `Server::handle_request` against the manager's real resource registry:
+//! the router list with many routers (`sort_by` / `sort_order`), the per-router pages by ingress id /
+//! router id / sysName / address with the flags and prefixes blocks, `/status/graph[/traces/<n>]` over
+//! the real tracer, and RIB queries over the now NON-EMPTY store.
+//!
+//! Case line (exact driver input, see `lean/Driver/HttpPages.lean`):
+//!   req|api|routers|rib|traces|method|path|query|deps|<world tag, ignored by the driver>
+//!   idx|n,n,…            (extract_msg_indices of a real `Trace`)
+//! Observation: `status content-type ids=… skel=…` (ids = routers shown, in page order; skel = the
+//! `< > " '` characters of the body in order, the inner SVG of the graph page left out) or `panic`.
+//! Oracle (no Lean): no panic; status in {200,400,404,405}; non-GET => 405; unknown router => 404;
+//! bad sort parameter => 400 with a reason; HTML pages never contain a router-supplied marker string
+//! verbatim; every trace message the tracing page shows is free of `<` / `>`; RIB answers are
+//! `application/json` and parse as a JSON object; a follow-up `GET /status` answers 200.
+use std::collections::BTreeMap;
 use std::net::SocketAddr;
-use std::sync::Arc;
-use std::time::Duration;
+use std::panic::{catch_unwind, AssertUnwindSafe};
+use std::str::FromStr;
+use std::time::{Duration, Instant};
 
-use hyper::{Body, Request};
+use hyper::{Body, Method, Request, Uri};
 use rotonda::verif::http as vh;
 use rotonda::verif::httppages as hp;
 use tokio::io::AsyncWriteExt;
-use verif_harness::{bmpio, parse_args};
+use verif_harness::{bmpio, join, parse_args, replay_cases, rng::Rng, Recorder};
+
+thread_local! { static PANIC_AT: std::cell::RefCell<String> = const { std::cell::RefCell::new(String::new()) }; }
+
+fn hex(b: &[u8]) -> String { let mut s = String::from("x"); for x in b { s.push_str(&format!("{x:02x}")); } s }
+fn unhex(s: &str) -> Option<Vec<u8>> {
+    let s = s.strip_prefix('x')?;
+    if s.len() % 2 != 0 { return None; }
+    (0..s.len() / 2).map(|i| u8::from_str_radix(&s[2 * i..2 * i + 2], 16).ok()).collect()
+}
+fn skeleton(body: &[u8]) -> String { body.iter().filter(|b| matches!(**b, b'<' | b'>' | b'"' | b'\'')).map(|b| *b as char).collect() }
+fn lossy(b: &[u8]) -> Vec<u8> { String::from_utf8_lossy(b).into_owned().into_bytes() }
 
 fn initiation(sys_name: &[u8], sys_desc: &[u8], extra: &[Vec<u8>]) -> Vec<u8> {
     let mut tlvs = vec![];
@@ -22,18 +53,88 @@ fn initiation(sys_name: &[u8], sys_desc: &[u8], extra: &[Vec<u8>]) -> Vec<u8> {
     m
 }
 
+// ------------------------------------------------------------------ world spec
+
+#[derive(Clone, Debug)]
+struct RouterSpec {
+    host: u8,
+    init: Option<(Vec<u8>, Vec<u8>, Vec<Vec<u8>>)>,
+    peers: Vec<usize>,
+    routes: Vec<(usize, usize)>,
+    leaves: bool,
+}
+#[derive(Clone, Debug)]
+struct WorldSpec { tag: String, api: String, template: String, routers: Vec<RouterSpec> }
+
+/// Router-supplied strings with a marker (`zq`) behind every structural character.
+fn hostile(g: &mut Rng, k: usize) -> Vec<u8> {
+    let forms: [&str; 9] = ["<zq{}>", "\"zq{}=", "'zq{}", "</pre><zq{}>", "a&zq{};b", "<script>zq{}</script>", "x\"><zq{}", "/flags/zq{}", "/prefixes/<zq{}>"];
+    let mut s = forms[g.below(forms.len() as u64) as usize].replace("{}", &k.to_string()).into_bytes();
+    if g.chance(1, 4) { s.extend_from_slice(&[0xff, 0xc3]); }
+    if g.chance(1, 4) { s.extend_from_slice("é€".as_bytes()); }
+    s
+}
+fn benign(g: &mut Rng, k: usize) -> Vec<u8> {
+    let forms = ["rtr-{}", "core {}.example.net", "r{}", "edge_{}", "Router {} (lab)", "10.9.8.{}"];
+    forms[g.below(forms.len() as u64) as usize].replace("{}", &k.to_string()).into_bytes()
+}
+/// A text whose `encode_safe` image has length > 60 with byte 61 at / not at a character boundary.
+fn long_text(g: &mut Rng, inside: bool) -> Vec<u8> {
+    let lead = if inside { 60 } else { 59 + 2 * g.below(2) as usize };
+    let mut s: Vec<u8> = (0..lead).map(|i| b"abcdefghij"[i % 10]).collect();
+    s.extend_from_slice(if g.chance(1, 2) { "é".as_bytes() } else { "€".as_bytes() });
+    for _ in 0..g.below(40) { s.push(b'z'); }
+    s
+}
+
+fn gen_world(seed: u64, k: usize, thorough: bool) -> WorldSpec {
+    let mut g = Rng::new(seed.wrapping_mul(1000).wrapping_add(k as u64));
+    let tag = format!("w{k}s{seed}{}", if thorough { "T" } else { "Q" });
+    if k == 0 {
+        // the witness world: one ordinary router, one whose sysName puts byte 61 of the escaped text inside `é`
+        let mut name = vec![b'a'; 60];
+        name.extend_from_slice("é".as_bytes());
+        return WorldSpec { tag, api: "/routers/".into(), template: "{sys_name}".into(), routers: vec![
+            RouterSpec { host: 2, init: Some((b"rtr-plain".to_vec(), b"plain".to_vec(), vec![])), peers: vec![0], routes: vec![(0, 1)], leaves: false },
+            RouterSpec { host: 3, init: Some((name, b"descr".to_vec(), vec![])), peers: vec![], routes: vec![], leaves: false },
+        ] };
+    }
+    let api = match k % 4 { 1 => "/routers/", 2 => "/r t/x/", 3 => "/status/graph/x/", _ => "/routers/" }.to_string();
+    let template = match k % 3 { 0 => "{sys_name}", 1 => "r-{sys_name}-{router_ip}", _ => "{router_ip}:{router_port}/{sys_name}" }.to_string();
+    let n = if k == 5 { 0 } else { 2 + g.below(6) as usize };
+    let mut routers = vec![];
+    for i in 0..n {
+        let init = if g.chance(1, 6) { None } else {
+            let name = match g.below(10) { 0..=3 => hostile(&mut g, i), 4 => long_text(&mut g, false), 5 => vec![], _ => benign(&mut g, i) };
+            let desc = match g.below(8) { 0..=2 => hostile(&mut g, 10 + i), 3 => long_text(&mut g, false), _ => benign(&mut g, 10 + i) };
+            let extra = (0..g.below(3)).map(|j| if g.chance(1, 2) { hostile(&mut g, 20 + i * 3 + j as usize) } else { benign(&mut g, 20 + i) }).collect();
+            Some((name, desc, extra))
+        };
+        let peers: Vec<usize> = if init.is_some() { (0..g.below(6) as usize).collect() } else { vec![] };
+        let routes = if peers.is_empty() { vec![] } else { (0..g.below(5)).map(|_| (g.below(peers.len() as u64) as usize, 1 + g.below(40) as usize)).collect() };
+        routers.push(RouterSpec { host: 2 + i as u8, init, peers, routes, leaves: n > 2 && g.chance(1, 7) });
+    }
+    // sometimes two routers share a sysName, or a router is named like another one's ingress id / address
+    if routers.len() >= 3 && g.chance(1, 2) {
+        let name = match g.below(3) { 0 => b"4".to_vec(), 1 => b"127.0.0.2".to_vec(), _ => b"twin".to_vec() };
+        for i in [0usize, 2] { if let Some(t) = routers[i].init.as_mut() { t.0 = name.clone(); } }
+    }
+    WorldSpec { tag, api, template, routers }
+}
+
+// ------------------------------------------------------------------ the live world
+
 struct Live {
     manager: rotonda::manager::Manager,
     resources: vh::Resources,
     metrics: vh::MetricsCollection,
     port: u16,
     conns: Vec<Option<tokio::net::TcpStream>>,
-    sent: u64,
 }
 
 fn free_port() -> u16 { std::net::TcpListener::bind("127.0.0.1:0").unwrap().local_addr().unwrap().port() }
 
-fn build_live(rt: &tokio::runtime::Runtime, api_path: &str, template: &str, tracing: &str) -> Option<Live> {
+fn build_live(rt: &tokio::runtime::Runtime, api_path: &str, template: &str) -> Option<Live> {
     use rotonda::config::{ConfigFile, Source};
     for _attempt in 0..5 {
         let port = free_port();
@@ -45,7 +146,7 @@ type = "bmp-tcp-in"
 listen = "127.0.0.1:{port}"
 http_api_path = "{api_path}"
 router_id_template = "{template}"
-tracing_mode = "{tracing}"
+tracing_mode = "On"
 
 [units.rib]
 type = "rib"
@@ -64,18 +165,18 @@ sources = ["rib"]
         let before = manager.link_report_updated_at();
         manager.spawn(&mut config);
         let ready = rt.block_on(async {
-            for _ in 0..1500 {
+            for _ in 0..3000 {
                 if manager.link_report_updated_at() != before { return true; }
-                tokio::time::sleep(Duration::from_millis(5)).await;
+                tokio::time::sleep(Duration::from_millis(2)).await;
             }
             false
         });
         if !ready { continue; }
         let resources = manager.http_resources();
         let metrics = manager.metrics();
-        let mut live = Live { manager, resources, metrics, port, conns: vec![], sent: 0 };
-        // is the listener ours? connect a probe router and see the accepted count go up
-        if live.connect(rt, 250).is_some() { live.disconnect(rt, 0); return Some(live); }
+        let mut live = Live { manager, resources, metrics, port, conns: vec![] };
+        // is the listener ours? a probe router connects and leaves again
+        if let Some(i) = live.connect(rt, 250) { live.disconnect(rt, i); live.conns.clear(); return Some(live); }
     }
     None
 }
@@ -87,14 +188,13 @@ impl Live {
     }
     fn wait(&self, rt: &tokio::runtime::Runtime, name: &str, want: u64) -> bool {
         rt.block_on(async {
-            for _ in 0..2000 {
+            for _ in 0..3000 {
                 if self.metric(name) >= want { return true; }
-                tokio::time::sleep(Duration::from_millis(2)).await;
+                tokio::time::sleep(Duration::from_millis(1)).await;
             }
             false
         })
     }
-    /// A router connects from 127.0.0.<host>.
     fn connect(&mut self, rt: &tokio::runtime::Runtime, host: u8) -> Option<usize> {
         let before = self.metric("bmp_tcp_in_connection_accepted_count");
         let port = self.port;
@@ -111,53 +211,508 @@ impl Live {
         let before = self.metric("bmp_tcp_in_connection_lost_count");
         if let Some(s) = self.conns[i].take() { drop(s); }
         self.wait(rt, "bmp_tcp_in_connection_lost_count", before + 1);
-        rt.block_on(tokio::time::sleep(Duration::from_millis(10)));
+        rt.block_on(tokio::time::sleep(Duration::from_millis(15)));
     }
     fn send(&mut self, rt: &tokio::runtime::Runtime, i: usize, msg: &[u8]) -> bool {
         let before = self.metric("bmp_tcp_in_num_bmp_messages_processed");
-        let ok = rt.block_on(async {
-            match self.conns[i].as_mut() { Some(s) => s.write_all(msg).await.is_ok(), None => false }
-        });
-        self.sent += 1;
+        let ok = rt.block_on(async { match self.conns[i].as_mut() { Some(s) => s.write_all(msg).await.is_ok(), None => false } });
         ok && self.wait(rt, "bmp_tcp_in_num_bmp_messages_processed", before + 1)
     }
-    fn get(&self, rt: &tokio::runtime::Runtime, uri: &str) -> (u16, String, Vec<u8>) {
-        let req = Request::get(uri).body(Body::empty()).unwrap();
+}
+
+#[derive(Debug, Clone)]
+enum Obs { Resp { status: u16, ctype: String, body: Vec<u8> }, Panic(String) }
+
+fn run_real(rt: &tokio::runtime::Runtime, live: &Live, req: Request<Body>) -> Obs {
+    PANIC_AT.with(|p| p.borrow_mut().clear());
+    let r = catch_unwind(AssertUnwindSafe(|| {
         rt.block_on(async {
-            let res = vh::handle_request(req, &self.metrics, &self.resources).await;
+            let res = vh::handle_request(req, &live.metrics, &live.resources).await;
             let status = res.status().as_u16();
-            let ct = res.headers().get("Content-Type").map(|v| String::from_utf8_lossy(v.as_bytes()).into_owned()).unwrap_or_default();
+            let ctype = res.headers().get("Content-Type").map(|v| String::from_utf8_lossy(v.as_bytes()).into_owned()).unwrap_or_else(|| "-".into());
             let body = hyper::body::to_bytes(res.into_body()).await.map(|b| b.to_vec()).unwrap_or_default();
-            (status, ct, body)
+            (status, ctype, body)
         })
+    }));
+    match r {
+        Ok((status, ctype, body)) => Obs::Resp { status, ctype, body },
+        Err(_) => Obs::Panic(PANIC_AT.with(|p| p.borrow().clone())),
     }
+}
+fn get(rt: &tokio::runtime::Runtime, live: &Live, uri: &str) -> Obs {
+    match Request::get(uri).body(Body::empty()) { Ok(r) => run_real(rt, live, r), Err(_) => Obs::Panic("bad-uri".into()) }
+}
+
+fn classify_panic(at: &str) -> String {
+    if at.contains("router_list/response.rs") || (at.contains("is_not_a_char_boundary") && at.contains("byte_index_61")) {
+        "panic:router-list:slice-inside-char".into()
+    } else if at.contains("inetnum") && at.contains("asn.rs") { "panic:rib-request.rs:asn-from-str-on-non-ascii".into() }
+    else { format!("panic:other:{}", at.split(' ').next().unwrap_or("?")) }
+}
+
+// ------------------------------------------------------------------ snapshot of a built world
+
+#[derive(Clone, Debug)]
+struct RouterSnap {
+    id: u32, addr: String, router_id: String,
+    tlvs: Option<(Vec<u8>, Vec<u8>, Vec<Vec<u8>>)>,
+    peers: Vec<String>,
+    sort_vals: Vec<u64>,
+}
+struct Built { spec: WorldSpec, live: Live, routers: Vec<RouterSnap>, world_field: String, n_msgs: usize }
+
+fn pct_all(b: &[u8]) -> String { b.iter().map(|x| format!("%{x:02X}")).collect() }
+/// percent-encode what a request path may not carry raw
+fn pct_path(b: &[u8]) -> String {
+    let mut s = String::new();
+    for &c in b { if c.is_ascii_alphanumeric() || b"-._~/,:".contains(&c) { s.push(c as char); } else { s.push_str(&format!("%{c:02X}")); } }
+    s
+}
+
+fn between<'a>(s: &'a str, a: &str, b: &str) -> Option<&'a str> { let i = s.find(a)? + a.len(); let j = s[i..].find(b)? + i; Some(&s[i..j]) }
+
+/// Rows of the real list page: (ingress id, numeric cells if the row has TLVs).
+fn parse_list(body: &str) -> Vec<(u32, Option<Vec<u64>>)> {
+    let mut rows = vec![];
+    for chunk in body.split("<tr>").skip(2) {
+        let cells: Vec<&str> = chunk.split("<td>").skip(1).map(|c| c.split("</td>").next().unwrap_or("")).collect();
+        if cells.len() != 7 { continue; }
+        let id = match between(cells[0], "\">", "</a>").and_then(|t| t.parse::<u32>().ok()) { Some(i) => i, None => continue };
+        if cells[4] == "-" { rows.push((id, None)); continue; }
+        let state = match cells[4] { "Initiating" => 0, "Dumping" => 1, "Updating" => 2, "Terminated" => 3, "Aborted" => 4, _ => 99 };
+        let nums = |s: &str| -> Vec<u64> { s.split(|c: char| !c.is_ascii_digit()).filter(|t| !t.is_empty()).filter_map(|t| t.parse().ok()).collect() };
+        let p = nums(cells[5]);
+        let q = nums(cells[6]);
+        if p.len() != 5 || q.len() != 3 { continue; }
+        // state, peers_up, eor_capable, dumping, eor_capable_pc, dumping_pc, invalid, soft, hard
+        rows.push((id, Some(vec![state, p[0], p[1], p[3], p[2], p[4], q[0], q[1], q[2]])));
+    }
+    rows
+}
+
+fn build_world(rt: &tokio::runtime::Runtime, spec: WorldSpec) -> Result<Built, String> {
+    let mut live = build_live(rt, &spec.api, &spec.template).ok_or("live pipeline did not start")?;
+    let mut n_msgs = 0usize;
+    let mut conn_of = vec![];
+    for r in &spec.routers {
+        let c = live.connect(rt, r.host).ok_or("router could not connect")?;
+        conn_of.push(c);
+        let mut msgs = vec![];
+        if let Some((n, d, ex)) = &r.init { msgs.push(initiation(n, d, ex)); }
+        for &p in &r.peers { msgs.push(bmpio::peer_up(p)); }
+        for &(p, n) in &r.routes { msgs.push(bmpio::route_monitoring(r.peers[p], n)); }
+        for m in msgs { if !live.send(rt, c, &m) { return Err("message not processed".into()); } n_msgs += 1; }
+    }
+    for (i, r) in spec.routers.iter().enumerate() { if r.leaves { live.disconnect(rt, conn_of[i]); } }
+    rt.block_on(tokio::time::sleep(Duration::from_millis(20)));
+    let alive: Vec<&RouterSpec> = spec.routers.iter().filter(|r| !r.leaves).collect();
+    // ingress ids and the displayed counters, from the list page as a well-behaved client sees it (hostile
+    // texts are escaped there); a world whose list page panics (the slice) is read per router instead
+    let api_uri = pct_path(spec.api.as_bytes());
+    let mut rows: Vec<(u32, Option<Vec<u64>>)> = match get(rt, &live, &api_uri) {
+        Obs::Resp { status: 200, body, .. } => parse_list(&String::from_utf8_lossy(&body)),
+        _ => vec![],
+    };
+    if rows.len() != alive.len() {
+        // fall back: ask per address
+        rows.clear();
+        for r in &alive {
+            match get(rt, &live, &format!("{api_uri}127.0.0.{}", r.host)) {
+                Obs::Resp { status: 200, body, .. } => {
+                    let b = String::from_utf8_lossy(&body).into_owned();
+                    let id = between(&b, "Ingress      : ", "\n").and_then(|t| t.trim().parse::<u32>().ok()).ok_or("no ingress id on the router page")?;
+                    let num = |label: &str| between(&b, label, "\n").and_then(|t| t.split_whitespace().next().and_then(|x| x.parse::<u64>().ok())).unwrap_or(0);
+                    let state = match between(&b, "State:       : ", " [").unwrap_or("") { "Initiating" => 0, "Dumping" => 1, "Updating" => 2, "Terminated" => 3, _ => 4 };
+                    let (up, eor, dump) = (num("Peers Up     : "), num("EoR Capable  : "), num("Dumping      : "));
+                    let pc = |t: u64, v: u64| if t == 0 { 0 } else { v * 100 / t };
+                    rows.push((id, if r.init.is_some() { Some(vec![state, up, eor, dump, pc(up, eor), pc(eor, dump), num("Problem Msgs : "), num("Soft Fail: "), num("Hard Fail: ")]) } else { None }));
+                }
+                _ => return Err("router page by address did not answer".into()),
+            }
+        }
+    }
+    let mut routers = vec![];
+    for (r, (id, vals)) in alive.iter().zip(rows.iter()) {
+        if vals.is_some() != r.init.is_some() { return Err(format!("row kind of router {} does not match what was sent", id)); }
+        let router_id = spec.template.replace("{sys_name}", &id.to_string()).replace("{router_ip}", "IP").replace("{router_port}", "PORT");
+        // the peer table's iteration order, from the router's own page
+        let peers = match get(rt, &live, &format!("{api_uri}{id}")) {
+            Obs::Resp { status: 200, body, .. } => {
+                let b = String::from_utf8_lossy(&body).into_owned();
+                b.split("/flags/").skip(1).filter_map(|c| c.split("\">more</a>").next().map(|s| s.to_string())).collect::<Vec<_>>()
+            }
+            _ => return Err("router page by id did not answer".into()),
+        };
+        if peers.len() != r.peers.len() { return Err(format!("router {}: {} peer rows for {} peers", id, peers.len(), r.peers.len())); }
+        routers.push(RouterSnap {
+            id: *id, addr: format!("127.0.0.{}", r.host), router_id,
+            tlvs: r.init.as_ref().map(|(n, d, ex)| (lossy(n), lossy(d), ex.iter().map(|e| lossy(e)).collect())),
+            peers, sort_vals: vals.clone().unwrap_or_default(),
+        });
+    }
+    let rs = if routers.is_empty() { "-".to_string() } else { join(routers.iter().map(|r| format!("{},{},{},{},{},{}", r.id, hex(r.addr.as_bytes()), hex(r.router_id.as_bytes()),
+        match &r.tlvs { None => "-".to_string(), Some((n, d, ex)) => format!("{}:{}:{}", hex(n), hex(d), if ex.is_empty() { "-".to_string() } else { join(ex.iter().map(|e| hex(e)), "+") }) },
+        if r.peers.is_empty() { "-".to_string() } else { join(r.peers.iter().map(|k| format!("{}:0", hex(k.as_bytes()))), "+") },
+        if r.sort_vals.is_empty() { "-".to_string() } else { join(r.sort_vals.iter(), ".") })), ";") };
+    let world_field = format!("{}|{}|{}:8:19:1", hex(spec.api.as_bytes()), rs, hex(b"/prefixes/"));
+    Ok(Built { spec, live, routers, world_field, n_msgs })
+}
+
+// ------------------------------------------------------------------ one request
+
+fn own_decode(raw: &[u8]) -> String {
+    let mut out = vec![];
+    let mut i = 0;
+    while i < raw.len() {
+        if raw[i] == b'%' && i + 2 < raw.len() + 0 && i + 2 <= raw.len() - 1 {
+            if let (Some(h), Some(l)) = ((raw[i + 1] as char).to_digit(16), (raw[i + 2] as char).to_digit(16)) { out.push((h * 16 + l) as u8); i += 3; continue; }
+        }
+        out.push(raw[i]);
+        i += 1;
+    }
+    String::from_utf8_lossy(&out).into_owned()
+}
+
+fn deps_of(req: &Request<Body>, dec: &str) -> String {
+    let mut d: BTreeMap<String, String> = BTreeMap::new();
+    if let Some(suffix) = dec.strip_prefix("/prefixes/") {
+        let v = match catch_unwind(|| inetnum::addr::Prefix::from_str(suffix)) {
+            Ok(Ok(p)) => format!("{}.{}", if p.is_v4() { 4 } else { 6 }, p.len()),
+            _ => "e".into(),
+        };
+        d.insert(format!("p:{}", hex(suffix.as_bytes())), v);
+        let params = rotonda::http::extract_params(req);
+        for p in params.iter().take(12) {
+            let v = p.value();
+            let mut pieces: Vec<&str> = v.split(',').take(8).collect();
+            pieces.push(v);
+            for piece in pieces {
+                let tri = |r: std::thread::Result<bool>| match r { Ok(true) => "1", Ok(false) => "0", Err(_) => "p" }.to_string();
+                d.insert(format!("a:{}", hex(piece.as_bytes())), tri(catch_unwind(|| inetnum::asn::Asn::from_str(piece).is_ok())));
+                d.insert(format!("c:{}", hex(piece.as_bytes())), tri(catch_unwind(|| routecore::bgp::communities::HumanReadableCommunity::from_str(piece).is_ok())));
+            }
+        }
+    }
+    if d.is_empty() { "-".into() } else { join(d.iter().map(|(k, v)| format!("{k}={v}")), " ") }
+}
+
+#[derive(Clone, Debug)]
+struct Case { method: String, path: Vec<u8>, query: Option<Vec<u8>>, expect: Option<u16>, kind: &'static str }
+
+/// the inner SVG (between the page's own `<svg …>` and the last `</svg>`) is not part of the skeleton
+fn strip_svg(body: &[u8]) -> (Vec<u8>, Vec<u8>) {
+    let marker = b"height: 300px;\">";
+    let s = body.windows(marker.len()).position(|w| w == marker).map(|p| p + marker.len());
+    let close = b"</svg>";
+    let e = (0..body.len().saturating_sub(close.len() - 1)).rev().find(|&p| &body[p..p + close.len()] == close);
+    match (s, e) { (Some(s), Some(e)) if s <= e => ([&body[..s], &body[e..]].concat(), body[s..e].to_vec()), _ => (body.to_vec(), vec![]) }
+}
+
+fn run_case(rec: &mut Recorder, rt: &tokio::runtime::Runtime, w: &Built, c: &Case) -> bool {
+    let mut target = c.path.clone();
+    if let Some(q) = &c.query { target.push(b'?'); target.extend_from_slice(q); }
+    let (uri, method) = match (Uri::from_maybe_shared(bytes::Bytes::from(target)), Method::from_bytes(c.method.as_bytes())) {
+        (Ok(u), Ok(m)) => (u, m),
+        _ => { rec.bump("gen.rejected-by-http-parser"); return false; }
+    };
+    let path = uri.path().as_bytes().to_vec();
+    let query = uri.query().map(|q| q.as_bytes().to_vec());
+    let req = Request::builder().method(method.clone()).uri(uri.clone()).body(Body::empty()).unwrap();
+    let dec = own_decode(&path);
+    let deps = deps_of(&req, &dec);
+    // the trace the page would show, from the real tracer (own reading of the path)
+    let tracer = hp::tracer(&w.live.manager);
+    let trace_id = dec.strip_prefix("/status/graph/traces/").and_then(|t| t.parse::<u8>().ok());
+    let trace_msgs: Option<Vec<String>> = trace_id.map(|id| tracer.get_trace(id).msgs().iter().map(|m| m.msg.clone()).collect());
+    let traces_field = match (&trace_id, &trace_msgs) {
+        (Some(id), Some(ms)) => format!("{}:{}", id, if ms.is_empty() { "-".to_string() } else { join(ms.iter().map(|m| hex(m.as_bytes())), "+") }),
+        _ => "-".into(),
+    };
+    let case_line = format!("req|{}|{}|{}|{}|{}|{}|{}", w.world_field, traces_field, c.method, hex(&path),
+        match &query { Some(q) => hex(q), None => "-".into() }, deps, w.spec.tag);
+    let obs = run_real(rt, &w.live, req);
+    let is_get = method == Method::GET;
+    let mut fails: Vec<String> = vec![];
+    let impl_line = match &obs {
+        Obs::Panic(at) => { fails.push(format!("{} at={}", classify_panic(at), at.replace(' ', "_"))); format!("panic ## at={}", at.replace(' ', "_")) }
+        Obs::Resp { status, ctype, body } => {
+            let text = String::from_utf8_lossy(body).into_owned();
+            let html = ctype == "text/html";
+            let (skel_src, svg) = if html && dec.starts_with("/status/graph") && text.contains("<svg xmlns") { strip_svg(body) } else { (body.clone(), vec![]) };
+            let ids: Vec<String> = if !html { vec![] }
+                else if text.contains("monitored routers:") { parse_list(&text).iter().map(|r| r.0.to_string()).collect() }
+                else if let Some(t) = between(&text, "Ingress      : ", "\n") { vec![t.trim().to_string()] }
+                else if let Some(t) = between(&text, "processing details of trace ", ":</p>") { vec![t.to_string()] }
+                else { vec![] };
+            // ---- oracle
+            if ![200u16, 400, 404, 405].contains(status) { fails.push(format!("status-outside-documented-set {status}")); }
+            if !is_get && *status != 405 { fails.push(format!("non-get-not-405 {status}")); }
+            if *status == 400 && body.is_empty() { fails.push("400-without-reason".into()); }
+            if let Some(e) = c.expect { if is_get && e != *status { fails.push(format!("expected-{e}-got-{status} kind={}", c.kind)); } }
+            if html {
+                let page = if text.contains("monitored routers:") { "router-list" } else if text.contains("Ingress      : ") { "router-info" } else { "tracing-page" };
+                for needle in ["<zq", "\"zq", "'zq", ">zq"] {
+                    if text.contains(needle) { fails.push(format!("html:unescaped:{page}:router-text marker={}", needle.replace('"', "dq").replace('\'', "sq").replace('<', "lt").replace('>', "gt"))); break; }
+                }
+                if String::from_utf8_lossy(&svg).contains("zq") { fails.push("html:unescaped:status-graph-svg:router-text".into()); }
+                if let Some(ms) = &trace_msgs {
+                    if *status == 200 {
+                        let rows = text.matches("<td><pre>").count();
+                        if rows != ms.len() { fails.push(format!("tracing-page:row-count page={} tracer={}", rows, ms.len())); }
+                        if ms.iter().any(|m| m.contains('<') || m.contains('>')) { fails.push("html:unescaped:tracing-page:trace_msg".into()); }
+                    }
+                }
+            }
+            if dec.starts_with("/prefixes/") && *status == 200 && path.iter().filter(|b| **b == b'/').count() != 2
+                && !query.as_ref().is_some_and(|q| String::from_utf8_lossy(q).contains("format=dump")) {
+                if ctype != "application/json" { fails.push(format!("rib-answer-content-type {ctype}")); }
+                match serde_json::from_slice::<serde_json::Value>(body) {
+                    Ok(v) if v.is_object() && v.get("data").is_some_and(|d| d.is_array()) => { if v["data"].as_array().is_some_and(|a| !a.is_empty()) { rec.bump("rib.answer-with-routes"); } }
+                    Ok(_) => fails.push("rib-answer-json-shape".into()),
+                    Err(_) => fails.push("rib-answer-not-json".into()),
+                }
+            }
+            let show_ct = if *status == 200 || *status == 400 { ctype.clone() } else { "text/plain".into() };
+            format!("{} {} ids={} skel={}", status, show_ct, if ids.is_empty() { "-".into() } else { ids.join(",") },
+                if html { skeleton(&skel_src) } else { "-".into() })
+        }
+    };
+    // the server keeps answering
+    match get(rt, &w.live, "/status") { Obs::Resp { status: 200, .. } => {}, _ => fails.push("follow-up-status-failed".into()) }
+    let nontrivial = match &obs { Obs::Panic(_) => true, Obs::Resp { status, .. } => is_get && (*status == 200 || *status == 400) };
+    rec.bump(&format!("kind.{}", c.kind));
+    match &obs { Obs::Panic(_) => rec.bump("obs.panic"), Obs::Resp { status, .. } => rec.bump(&format!("obs.{status}")) }
+    let failed = !fails.is_empty();
+    rec.case(case_line, impl_line, if failed { format!("fail {}", fails[0]) } else { "ok".into() }, nontrivial);
+    failed
+}
+
+// ------------------------------------------------------------------ generator
+
+const SORT_KEYS: [&str; 12] = ["addr", "sys_name", "sys_desc", "state", "peers_up", "peers_up_eor_capable", "peers_up_dumping",
+    "peers_up_eor_capable_pc", "peers_up_dumping_pc", "invalid_messages", "soft_parse_errors", "hard_parse_errors"];
+
+fn maybe_pct(g: &mut Rng, s: &[u8]) -> Vec<u8> {
+    let mut out = vec![];
+    for &c in s {
+        let must = !(c.is_ascii_alphanumeric() || b"-._~/,:".contains(&c));
+        if must || g.chance(1, 12) { out.extend_from_slice(format!("%{c:02X}").as_bytes()); } else { out.push(c); }
+    }
+    out
+}
+
+fn gen_case(g: &mut Rng, w: &Built) -> Case {
+    let api = w.spec.api.as_bytes().to_vec();
+    let shadowed = w.spec.api.starts_with("/status/graph");
+    let get = |path: Vec<u8>, query: Option<Vec<u8>>, expect: Option<u16>, kind: &'static str| Case { method: "GET".into(), path, query, expect, kind };
+    let mut c = match g.below(100) {
+        0..=21 => {
+            // router list
+            let mut q: Vec<String> = vec![];
+            let mut bad = false;
+            if g.chance(3, 4) {
+                let v = match g.below(10) { 0 => { bad = true; "nope".to_string() } 1 => { bad = true; "SYS_NAME".into() } 2 => { bad = true; String::new() } _ => g.pick(&SORT_KEYS).to_string() };
+                q.push(format!("sort_by={}", String::from_utf8(maybe_pct(g, v.as_bytes())).unwrap()));
+            }
+            if g.chance(1, 2) {
+                let v = match g.below(8) { 0 => { bad = true; "up" } 1 => { bad = true; "DESC" } 2 | 3 => "asc", _ => "desc" };
+                q.push(format!("sort_order={v}"));
+            }
+            if g.chance(1, 6) { q.push("other=1".into()); }
+            if g.chance(1, 10) { q.insert(0, "sort_by[x]=state".into()); }
+            if g.chance(1, 10) && !q.is_empty() { let k = g.below(q.len() as u64) as usize; let dup = q[k].clone(); q.push(dup.replace("desc", "asc")); }
+            // a later duplicate does not count (`get_param` takes the first): `bad` is only exact without duplicates / families
+            let exact = !q.iter().any(|p| p.starts_with("sort_by[")) && q.iter().filter(|p| p.starts_with("sort_by=")).count() <= 1 && q.iter().filter(|p| p.starts_with("sort_order=")).count() <= 1;
+            let sliced = w.routers.iter().any(|r| r.tlvs.as_ref().is_some_and(|t| !slice_ok(&t.0) || !slice_ok(&t.1)));
+            let expect = if shadowed || !exact { None } else if bad { Some(400) } else if sliced { None } else { Some(200) };
+            get(maybe_pct(g, &api), if q.is_empty() { None } else { Some(q.join("&").into_bytes()) }, expect, "router-list")
+        }
+        22..=61 => {
+            // router info
+            let known = !w.routers.is_empty() && g.chance(3, 4);
+            let (tok, mut expect): (Vec<u8>, Option<u16>) = if known {
+                let r = g.pick(&w.routers).clone();
+                match g.below(5) {
+                    0 | 1 => (r.id.to_string().into_bytes(), Some(200)),
+                    2 => (r.addr.clone().into_bytes(), Some(200)),
+                    3 => (r.router_id.clone().into_bytes(), Some(200)),
+                    _ => match &r.tlvs {
+                        // a sysName containing the focus separators cannot be reached by name; an empty one neither
+                        Some(t) if !t.0.is_empty() => { let s = String::from_utf8_lossy(&t.0).into_owned(); (t.0.clone(), if s.contains("/flags/") || s.contains("/prefixes/") { None } else { Some(200) }) }
+                        _ => (r.id.to_string().into_bytes(), Some(200)),
+                    },
+                }
+            } else {
+                let t: Vec<u8> = match g.below(8) { 0 => b"9999".to_vec(), 1 => b"no-such-router".to_vec(), 2 => b"0".to_vec(), 3 => b"127.0.0.1".to_vec(), 4 => "é".as_bytes().to_vec(),
+                    5 => w.routers.first().map(|r| format!("0{}", r.id)).unwrap_or("01".into()).into_bytes(), 6 => w.routers.first().map(|r| format!("{} ", r.id)).unwrap_or("1 ".into()).into_bytes(), _ => b"<zq99>".to_vec() };
+                let hit = w.routers.iter().any(|r| { let s = String::from_utf8_lossy(&t).into_owned(); s == r.id.to_string() || s == r.addr || s == r.router_id || r.tlvs.as_ref().is_some_and(|x| x.0 == t) });
+                (t, if hit { None } else { Some(404) })
+            };
+            let mut p = api.clone();
+            p.extend_from_slice(&tok);
+            let keys: Vec<String> = w.routers.iter().flat_map(|r| r.peers.iter().cloned()).collect();
+            match g.below(9) {
+                0 | 1 if !keys.is_empty() => { p.extend_from_slice(b"/flags/"); p.extend_from_slice(g.pick(&keys).as_bytes()); }
+                2 | 3 if !keys.is_empty() => { p.extend_from_slice(b"/prefixes/"); p.extend_from_slice(g.pick(&keys).as_bytes()); }
+                4 => { p.extend_from_slice(b"/flags/nobody"); }
+                5 => { p.extend_from_slice(b"/prefixes/"); }
+                6 if !keys.is_empty() => { p.extend_from_slice(b"/flags/"); p.extend_from_slice(g.pick(&keys).as_bytes()); p.extend_from_slice(b"/prefixes/"); p.extend_from_slice(g.pick(&keys).as_bytes()); expect = None; }
+                7 => { p.extend_from_slice(b"/x"); if expect == Some(200) { expect = Some(404); } }
+                _ => {}
+            }
+            if shadowed && expect == Some(404) { expect = None; }
+            get(maybe_pct(g, &p), if g.chance(1, 10) { Some(b"sort_by=nope".to_vec()) } else { None }, expect, "router-info")
+        }
+        62..=76 => {
+            let n_traces = (w.n_msgs + 2).min(256) as u64;
+            let p: String = match g.below(14) {
+                0 => "/status/graph".into(), 1 => "/status/graph/".into(), 2 => "/status/graph/traces".into(), 3 => "/status/graph/traces/".into(),
+                4 => "/status/graph/traces/+3".into(), 5 => "/status/graph/traces/007".into(), 6 => "/status/graph/traces/256".into(), 7 => "/status/graph/traces/-1".into(),
+                8 => "/status/graph/traces/1/".into(), 9 => "/status/graphX/traces/1".into(), 10 => "/status/traces".into(), 11 => "/status/graph/traces/255".into(),
+                _ => format!("/status/graph/traces/{}", g.below(n_traces)),
+            };
+            let status_traces = p == "/status/traces";
+            get(maybe_pct(g, p.as_bytes()), None, if status_traces || !shadowed { Some(200) } else { None }, "graph")
+        }
+        77..=91 => {
+            // RIB queries over the store the routers filled
+            let stored: Vec<usize> = w.spec.routers.iter().flat_map(|r| r.routes.iter().map(|x| x.1 % 200)).collect();
+            let pfx: String = match g.below(8) {
+                0 => "127.0.0.0/8".into(), 1 => "127.0.0.0/16".into(), 2 => "0.0.0.0/0".into(), 3 => "2001:db8::/32".into(), 4 => "127.0.1.0/33".into(), 5 => "127.0.1.1/24".into(),
+                _ => format!("127.0.{}.0/24", if stored.is_empty() { 1 } else { *g.pick(&stored) }),
+            };
+            let mut q: Vec<String> = vec![];
+            if g.chance(1, 2) { q.push(format!("include={}", g.pick(&["moreSpecifics", "lessSpecifics", "lessSpecifics,moreSpecifics", "everything"]))); }
+            if g.chance(1, 3) { q.push(format!("details={}", g.pick(&["communities", "all"]))); }
+            if g.chance(1, 3) { q.push(format!("sort={}", g.pick(&["prefix", "peer_as", "ingress_id", "nonsense"]))); }
+            if g.chance(1, 4) { q.push(format!("select[peer_as]={}", g.pick(&["65001", "AS65002", "x"]))); }
+            if g.chance(1, 5) { q.push(format!("select[as_path]={}", g.pick(&["65001,101", "65002", "1,y"]))); }
+            if g.chance(1, 5) { q.push(format!("discard[community]={}", g.pick(&["BLACKHOLE", "123:44", "zz"]))); }
+            if g.chance(1, 6) { q.push(format!("filter_op={}", g.pick(&["any", "all", "xor"]))); }
+            if g.chance(1, 8) { q.push(format!("format={}", g.pick(&["dump", "csv"]))); }
+            if g.chance(1, 10) { q.push("unknown=1".into()); }
+            let p = if g.chance(1, 8) { format!("/prefixes/{}", g.below(12)) } else { format!("/prefixes/{pfx}") };
+            get(p.into_bytes(), if q.is_empty() { None } else { Some(q.join("&").into_bytes()) }, None, "rib")
+        }
+        92..=95 => get(g.pick(&["/metrics", "/status", "/nothing", "/routers", "/", "/prefixes"]).as_bytes().to_vec(), None, None, "fixed-or-unknown"),
+        _ => { let mut c = gen_case(g, w); c.method = g.pick(&["POST", "HEAD", "PUT", "DELETE", "OPTIONS"]).to_string(); c.expect = None; c.kind = "non-get"; c }
+    };
+    if g.chance(1, 25) && !c.path.is_empty() { let i = g.below(c.path.len() as u64) as usize; c.path[i] = *g.pick(b"/%a0 +Z"); c.expect = None; c.kind = "mutated"; }
+    c
+}
+
+fn enc_safe(s: &[u8]) -> Vec<u8> {
+    let mut o = vec![];
+    for &b in s { match b { b'&' => o.extend_from_slice(b"&amp;"), b'<' => o.extend_from_slice(b"&lt;"), b'>' => o.extend_from_slice(b"&gt;"), b'"' => o.extend_from_slice(b"&quot;"), b'\'' => o.extend_from_slice(b"&#x27;"), b'/' => o.extend_from_slice(b"&#x2F;"), _ => o.push(b) } }
+    o
+}
+fn slice_ok(s: &[u8]) -> bool { let e = enc_safe(s); e.len() <= 60 || std::str::from_utf8(&e).map(|t| t.is_char_boundary(61)).unwrap_or(true) }
+
+fn idx_cases(rec: &mut Recorder, g: &mut Rng, n: usize) {
+    for k in 0..n {
+        let gate = uuid::Uuid::from_u128(1);
+        let other = uuid::Uuid::from_u128(2);
+        let mut t = hp::Trace::new();
+        let len = if k < 4 { k } else { g.below(24) as usize };
+        let mut idxs = vec![];
+        for i in 0..len {
+            let mine = match k % 3 { 0 => g.chance(1, 2), 1 => g.chance(4, 5), _ => g.chance(1, 5) };
+            t.append_msg(if mine { gate } else { other }, "m".into(), if g.chance(1, 2) { hp::MsgRelation::GATE } else { hp::MsgRelation::COMPONENT });
+            if mine { idxs.push(i); }
+        }
+        let real = catch_unwind(AssertUnwindSafe(|| hp::extract_msg_indices(&t, gate))).unwrap_or_else(|_| "panic".into());
+        // oracle: the text denotes exactly the index set, as maximal runs in increasing order
+        let mut denoted = vec![];
+        let inner = real.trim_start_matches('[').trim_end_matches(']');
+        let mut wellformed = real.starts_with('[') && real.ends_with(']');
+        for part in inner.split(", ").filter(|p| !p.is_empty()) {
+            match part.split_once('-') {
+                Some((a, b)) => match (a.parse::<usize>(), b.parse::<usize>()) { (Ok(a), Ok(b)) if a < b => denoted.extend(a..=b), _ => wellformed = false },
+                None => match part.parse::<usize>() { Ok(a) => denoted.push(a), _ => wellformed = false },
+            }
+        }
+        let ok = wellformed && denoted == idxs;
+        rec.bump("kind.extract-msg-indices");
+        rec.case(format!("idx|{}", join(idxs.iter(), ",")), real.clone(), if ok { "ok".into() } else { format!("fail extract-msg-indices:wrong-set text={}", real.replace(' ', "_")) }, !idxs.is_empty());
+    }
+}
+
+fn parse_tag(tag: &str) -> Option<(usize, u64, bool)> {
+    let t = tag.strip_prefix('w')?;
+    let (k, rest) = t.split_once('s')?;
+    let thorough = rest.ends_with('T');
+    Some((k.parse().ok()?, rest[..rest.len() - 1].parse().ok()?, thorough))
 }
 
 fn main() {
     let args = parse_args();
+    let t0 = Instant::now();
+    std::panic::set_hook(Box::new(|info| {
+        let loc = info.location().map(|l| format!("{}:{}", l.file(), l.line())).unwrap_or("?".into());
+        let msg = info.payload().downcast_ref::<String>().cloned().or_else(|| info.payload().downcast_ref::<&str>().map(|s| s.to_string())).unwrap_or_default();
+        let msg: String = msg.chars().map(|c| if c.is_ascii_graphic() { c } else { '_' }).take(100).collect();
+        if std::env::var("VERIF_DEBUG").is_ok() { eprintln!("panic: {} {}", loc, msg); }
+        PANIC_AT.with(|p| *p.borrow_mut() = format!("{} {}", loc, msg));
+    }));
+    let mut rec = Recorder::new("hyper::Requests into the real Server::handle_request of a running bmp-tcp-in -> rib -> null-out pipeline with 0..7 routers connected over loopback TCP that sent real Initiation (hostile / long / empty / shared sysName, sysDescr, string TLVs), Peer Up and Route Monitoring messages: router list (all sort keys, orders, malformed and duplicate parameters), router pages by ingress id / router id / sysName / address with flags and prefixes blocks and trailing segments, unknown routers, /status/graph[/traces/<n>] over the real tracer, RIB queries over the filled store, fixed and unknown paths, other methods, byte mutations; plus extract_msg_indices on real Traces; non-trivial = a GET answered 200/400 or a panic (or a non-empty index set); distinct = distinct case lines");
     let rt = tokio::runtime::Builder::new_multi_thread().worker_threads(2).enable_all().build().unwrap();
-    let t0 = std::time::Instant::now();
-    let mut w = build_live(&rt, "/routers/", "{sys_name}", "On").expect("live world");
-    eprintln!("world up in {:?}", t0.elapsed());
-    let a = w.connect(&rt, 2).unwrap();
-    let b = w.connect(&rt, 3).unwrap();
-    let c = w.connect(&rt, 4).unwrap();
-    w.send(&rt, a, &initiation(b"<b>rtr-a</b>", b"desc 'a'", &[b"x<y".to_vec()]));
-    w.send(&rt, b, &initiation(b"rtr-b", b"d", &[]));
-    for i in 0..3 { w.send(&rt, a, &bmpio::peer_up(i)); }
-    w.send(&rt, a, &bmpio::route_monitoring(0, 1));
-    w.send(&rt, a, &bmpio::route_monitoring(0, 2));
-    w.send(&rt, a, &bmpio::route_monitoring(1, 3));
-    let _ = c;
-    eprintln!("msgs sent in {:?}", t0.elapsed());
-    for uri in args.rest.iter().skip(1) {
-        let (s, ct, body) = w.get(&rt, uri);
-        println!("=== {uri} -> {s} {ct}\n{}", String::from_utf8_lossy(&body));
+    let mut g = Rng::new(args.seed);
+    let _enter = rt.enter(); // TcpStreams are dropped on this thread
+
+    if let Some(path) = &args.replay {
+        // group the replayed cases by world tag, rebuild each world from its tag
+        let mut by_world: BTreeMap<String, Vec<String>> = BTreeMap::new();
+        for line in replay_cases(path) {
+            if line.starts_with("idx|") { continue; }
+            let tag = line.rsplit('|').next().unwrap_or("").to_string();
+            by_world.entry(tag).or_default().push(line);
+        }
+        for (tag, lines) in by_world {
+            let Some((k, seed, thorough)) = parse_tag(&tag) else { continue };
+            match build_world(&rt, gen_world(seed, k, thorough)) {
+                Ok(w) => for l in lines {
+                    let f: Vec<&str> = l.split('|').collect();
+                    if f.len() != 10 { continue; }
+                    if let (Some(p), q) = (unhex(f[6]), if f[7] == "-" { None } else { unhex(f[7]) }) {
+                        run_case(&mut rec, &rt, &w, &Case { method: f[5].to_string(), path: p, query: q, expect: None, kind: "replay" });
+                    }
+                },
+                Err(e) => rec.bump(&format!("world.failed:{}", e.replace(' ', "_"))),
+            }
+        }
+        rec.finish(&args, t0.elapsed().as_secs_f64());
+        std::process::exit(0);
     }
-    let tr = hp::tracer(&w.manager);
-    for (name, id) in hp::graph_gates(&w.manager) {
-        println!("gate {name} {:?} {}", id, id.map(|g| hp::extract_msg_indices(&tr.get_trace(5), g)).unwrap_or_default());
+
+    idx_cases(&mut rec, &mut g, if args.thorough { 3000 } else { 300 });
+    let n_worlds = if args.thorough { 40 } else { 6 };
+    let per_world = if args.thorough { 4000 } else { 700 };
+    for k in 0..n_worlds {
+        let spec = gen_world(args.seed, k, args.thorough);
+        let w = match build_world(&rt, spec) {
+            Ok(w) => w,
+            Err(e) => { rec.bump(&format!("world.failed:{}", e.replace(' ', "_"))); continue; }
+        };
+        rec.bump("world.built");
+        rec.bump_by("world.routers-connected", w.routers.len() as u64);
+        rec.bump_by("world.peer-rows", w.routers.iter().map(|r| r.peers.len() as u64).sum());
+        rec.bump_by("world.bmp-messages", w.n_msgs as u64);
+        if k == 0 {
+            // the witness first: the router list while a router with a 60-byte ASCII + `é` sysName is connected
+            let failed = run_case(&mut rec, &rt, &w, &Case { method: "GET".into(), path: b"/routers/".to_vec(), query: None, expect: None, kind: "witness" });
+            rec.variant("listslice", if failed { "as-written" } else { "repaired" });
+        }
+        let mut wg = g.fork();
+        for _ in 0..(if k == 0 { per_world / 4 } else { per_world }) {
+            let c = gen_case(&mut wg, &w);
+            run_case(&mut rec, &rt, &w, &c);
+        }
+        let Built { mut live, .. } = w;
+        live.conns.clear();
+        live.manager.terminate();
+        rt.block_on(tokio::time::sleep(Duration::from_millis(20)));
     }
-    eprintln!("done in {:?}", t0.elapsed());
+    let _ = pct_all;
+    rec.finish(&args, t0.elapsed().as_secs_f64());
     std::process::exit(0);
 }
